@@ -245,7 +245,12 @@ class Tag(BaseTag):
     def create_new(cls, nixfile, nixparent, h5parent, name, type_, position):
         newentity = super(Tag, cls).create_new(nixfile, nixparent, h5parent,
                                                name, type_)
-        newentity.position = position
+        try:
+            newentity.position = position
+        except Exception:
+            # do not leave a half-built tag behind
+            del h5parent[name]
+            raise
         return newentity
 
     @property
